@@ -94,6 +94,13 @@ type Config struct {
 	Profile    bool          // count parks by reason into Counters
 	NoPreempt  bool          // never preempt at lock yields (operation-granularity scheduling)
 	MapSeed    uint64        // non-zero: ranges over maps visit the keys in a permutation derived from this value (0: ascending)
+	// TimeSkipPerMille > 0: at a scheduling step with runnable tasks the driver now and then (with this
+	// probability) lets simulated time pass up to the next timer (at most TimeSkipMax, default 30 s; in total
+	// at most TimeSkipBudget, default 10 min) before anybody continues: the runnable tasks are "slow", and
+	// timer-driven work (tickers, time-outs, AfterFunc callbacks) lands in the middle of their operations.
+	TimeSkipPerMille int
+	TimeSkipMax      time.Duration
+	TimeSkipBudget   time.Duration
 }
 
 // Sim is one simulated execution.
@@ -105,6 +112,9 @@ type Sim struct {
 	cur            *Task
 	last           *Task
 	wake           chan struct{}
+	noSkip         bool
+	skipped        time.Duration
+	TimeSkips      int
 	kill           chan struct{}
 	killedF        atomic.Bool
 	Dec            *Decider
@@ -155,6 +165,12 @@ func Active() *Sim { return active.Load() }
 
 // New creates a simulation. It must be created and run inside a synctest bubble.
 func New(dec *Decider, cfg Config) *Sim {
+	if cfg.TimeSkipMax == 0 {
+		cfg.TimeSkipMax = 30 * time.Second
+	}
+	if cfg.TimeSkipBudget == 0 {
+		cfg.TimeSkipBudget = 10 * time.Minute
+	}
 	if cfg.MaxSteps == 0 {
 		cfg.MaxSteps = 1000000
 	}
@@ -674,6 +690,10 @@ func (s *Sim) Crash(node int) { s.markCrashed(node); s.Count("fault.crash") }
 // restarted server gets a fresh node id so a later crash hits only the new one).
 func (s *Sim) SetTaskNode(t *Task, node int) { s.mu.Lock(); t.Node = node; s.mu.Unlock() }
 
+// SetTimeSkips switches the driver's time skips (Config.TimeSkipPerMille) on or off, e.g. off for the
+// fault-free final phase of a run whose liveness bounds assume that runnable work is not delayed.
+func (s *Sim) SetTimeSkips(on bool) { s.noSkip = !on }
+
 // Stall hides node's tasks from the scheduler for d of simulated time.
 func (s *Sim) Stall(node int, d time.Duration) {
 	s.mu.Lock()
@@ -983,6 +1003,32 @@ func (s *Sim) Run(main func()) {
 				quantum *= 2
 			}
 			continue
+		}
+		if s.cfg.TimeSkipPerMille > 0 && !s.noSkip && s.skipped < s.cfg.TimeSkipBudget {
+			// (a decision value of 0 - the default of a minimised or exhausted trace - means "no skip")
+			if v := s.Dec.Choose(1000); v >= 1000-s.cfg.TimeSkipPerMille {
+				lens := []time.Duration{time.Millisecond, 50 * time.Millisecond, time.Second, s.cfg.TimeSkipMax}
+				d := lens[s.Dec.Choose(len(lens))]
+				if d > s.cfg.TimeSkipMax {
+					d = s.cfg.TimeSkipMax
+				}
+				t0 := time.Now()
+				select { // (a token left by the task that parked last)
+				case <-s.wake:
+				default:
+				}
+				tm := time.NewTimer(d)
+				select {
+				case <-s.wake:
+					tm.Stop()
+				case <-tm.C:
+				}
+				s.skipped += time.Since(t0)
+				s.TimeSkips++
+				s.mix(uint64(time.Since(t0)))
+				s.Count("fault.time_passes_while_tasks_are_runnable")
+				continue
+			}
 		}
 		s.Steps++
 		if progressEvery > 0 && s.Steps%progressEvery == 0 {
